@@ -198,12 +198,18 @@ class C02(Check):
             patch_kw["patch_num"] = P
             patch_kw["probe_size"] = n
 
+        reader_kw = {}
         with Scratch("c02") as tmp:
             src_path = None
             if source in ("hdf5", "fits", "parquet"):
                 rgs = {"smaller": max(1, chunk // 3), "equal": chunk, "larger": chunk * 2 + 1, "one": n}[case["group"]]
+                # FITS: every third case keeps the table in extension 2 behind another table of a different length
+                decoy = None
+                if source == "fits" and case["seed"] % 3 == 0:
+                    decoy = [max(1, n // 3), n + 7, 2 * n + 1][(case["seed"] // 3) % 3]
+                    reader_kw["hdu"] = 2
                 src_path = sources.write_source(source, tmp / ("input" + sources.EXT[source]), cols,
-                                                row_group_size=min(max(rgs, 1), max(n, 1)))
+                                                row_group_size=min(max(rgs, 1), max(n, 1)), decoy_rows=decoy)
             box = None
             if source == "random":
                 box = dict(ra_min=10.0, ra_max=20.0, dec_min=-10.0, dec_max=10.0,
@@ -257,7 +263,7 @@ class C02(Check):
 
                     rk = dict(names, patch_name=kw.get("patch_name"), chunksize=chunksize, degrees=case["degrees"])
                     reader = (readers.DataFrameReader(pd.DataFrame(cols), **rk) if source == "dataframe"
-                              else readers.new_filereader(src_path, **rk))
+                              else readers.new_filereader(src_path, **rk, **reader_kw))
                     ycat.write_patches(target, reader, kw.get("patch_centers"), overwrite=False, progress=False,
                                        max_workers=workers, buffersize=buffersize)
                     cat = Catalog(target, max_workers=1)
@@ -268,7 +274,7 @@ class C02(Check):
                         kw.pop(k, None)
                     cat = Catalog.from_random(target, BoxRandoms(**box), n, **kw)
                 else:
-                    cat = Catalog.from_file(target, src_path, **kw)
+                    cat = Catalog.from_file(target, src_path, **kw, **reader_kw)
                 os.environ["YAW_NUM_THREADS"] = "1"
                 return dict(digests={str(k): v for k, v in patch_digests(cat).items()},
                             centers=cat.get_centers().data.tolist())
